@@ -36,7 +36,10 @@ C05_QUICK = ([_h(f"c05::c05_quantize__{t}") for t in I8_TYPES] + [_h(f"c05::c05_
              + [_h(f"c05::c05_layered2__{t}", bound="check degree 2, |variable LLR| <= 508") for t in I8_TYPES]
              + [_h(f"c05::c05_layered3__{t}", bound="check degree 3, |variable LLR| <= 508") for t in I8_TYPES])
 C05_THOROUGH = ([h for h in C05_QUICK if "var8" not in h["harness"]]
-                + [_h(f"c05::c05_var32__{t}", timeout=3600, mem_gb=8, bound="degrees 1..=32 (1..=200 did not finish)") for t in I8_TYPES])
+                + [_h(f"c05::c05_var32__{t}", timeout=3600, mem_gb=8, bound="degrees 1..=32") for t in I8_TYPES]
+                + [_h(f"c05::c05_var100__{t}", timeout=7200, mem_gb=14, cap_gb=40,
+                      bound="degrees 1..=100 for the four Jones x degree-one shapes of the shared macro body (1..=200 did not finish)")
+                   for t in ["Minstarapproxi8", "Minstarapproxi8Jones", "Minstarapproxi8Deg1Clip", "Aminstari8JonesDeg1Clip"]])
 C04_QUICK = ([_h(f"c04::c04_table__{t}") for t in I8_TYPES] + [_h(f"c04::c04_check2__{t}") for t in I8_TYPES]
              + [_h(f"c04::c04_check3__{t}") for t in I8_TYPES])
 FLOAT_TYPES = ["Phif64", "Phif32", "Tanhf64", "Tanhf32", "Minstarapproxf64", "Minstarapproxf32", "Aminstarf64", "Aminstarf32"]
